@@ -492,10 +492,19 @@ impl Target {
     }
 
     pub(crate) fn is_grayscale_cleartype(&self) -> bool {
-        match self {
-            Self::Smooth { mode, .. } => matches!(mode, SmoothMode::Normal | SmoothMode::Light),
-            _ => false,
-        }
+        // FreeType computes this as
+        // `!(load_flags & FT_LOAD_TARGET_LCD || load_flags & FT_LOAD_TARGET_LCD_V)`
+        // and the bits of FT_LOAD_TARGET_LIGHT (1 << 16) are contained in
+        // FT_LOAD_TARGET_LCD (3 << 16), so the light target does not count
+        // as grayscale ClearType.
+        // See <https://gitlab.freedesktop.org/freetype/freetype/-/blob/57617782464411201ce7bbc93b086c1b4d7d84a5/src/truetype/ttgload.c#L2222>
+        matches!(
+            self,
+            Self::Smooth {
+                mode: SmoothMode::Normal,
+                ..
+            }
+        )
     }
 
     pub(crate) fn is_light(&self) -> bool {
